@@ -173,6 +173,16 @@ def detection_stress():
         res.append((pad + 'k = "' + "\u00e9\u20ac" * 3500 + '"\n').encode())
         res.append(('{"' + pad + 'k": "' + "\u00e9" * 9000 + '"} {"b": 2}').encode())
         res.append(("[t]\n" + pad + 'k = "v" # ' + "\u00e9" * 600 + "\n" + "".join('k%d = "\u20ac" # c\n' % i for i in range(900))).encode())
+    # YAML whose lines end in the other line breaks YAML knows (CR alone, NEL, LS, PS), with and without a leading comment
+    for br in ("\r", "\x85", "\u2028", "\u2029", "\r\n"):
+        res.append(("# settings" + br + "name: xt" + br + "port: 8080" + br).encode())
+        res.append(("name: xt" + br + "port: 8080" + br).encode())
+        res.append(("# c" + br + "- 1" + br + "- 2" + br + "---" + br + "- 3" + br).encode())
+    # YAML that is wrong before its first document starts (first token, directives, a control character), small and
+    # beyond a first buffer's worth of input
+    res += [b'"unterminated\n', b"'unterminated\n", b"@at\n", b"`tick\n", b"# c\n@x\n", b"%YAML 1.1\n%YAML 1.1\n---\na: 1\n",
+            b"%YAML 3.0\n---\na: 1\n", b"%TAG ! x\n%TAG ! y\n---\na: 1\n", b"a: 1\x01\n", b"\x01a: 1\n", b"# \x07\n---\na: 1\n",
+            b"# c\n" * 2800 + b"\x01\n---\na: 1\n", b"# c\n" * 5200 + b"\x01\n---\na: 1\n", b"k: v\n" * 2800 + b"\x01\n"]
     return res
 
 
